@@ -80,6 +80,7 @@ class ExprMixin(object):
                 return ClassVal(r[1])
             if r[0] == "value":
                 defmod = r[1]
+                self.ce.consulted.add((defmod.name, self.ce._defname(defmod, r[2])))
                 if defmod.name in st.modenvs:
                     menv = st.heap[st.modenvs[defmod.name].id]
                     dn = self.ce._defname(defmod, r[2])
@@ -181,7 +182,12 @@ class ExprMixin(object):
                 if name in o.attrs:
                     return o.attrs[name]
                 if name in o.cls.methods:
-                    return BoundMeth(base, o.cls.methods[name])
+                    f = o.cls.methods[name]
+                    if f.is_staticmethod:
+                        return FuncVal(f, None)
+                    if f.is_classmethod:
+                        return BoundMeth(ClassVal(o.cls), f)
+                    return BoundMeth(base, f)
                 if name == "__dict__":
                     self.event("dunder_dict", node, module, st)
                     return Opaque("__dict__")
@@ -259,9 +265,52 @@ class ExprMixin(object):
             return outs[0]
         return self.mk_ite(st, c, outs[0], outs[1])
 
+    def _int_of(self, idx):
+        """p when idx is exactly int(p) of a numeric term, else None."""
+        if isinstance(idx, P) and len(idx.terms) == 1:
+            ((mono, coef),) = idx.terms.items()
+            if coef == 1 and len(mono) == 1 and mono[0][1] == 1 and isinstance(mono[0][0], App) and mono[0][0].op == "int":
+                return mono[0][0].args[0]
+        return None
+
+    def index_by_int(self, st, items, p, node, module):
+        """SEQ[int(p)]: bound p (interval / vertex analysis), report an IndexError hazard when the
+        index can leave the sequence, and lower the lookup to a threshold chain over p."""
+        from .absnum import Bounds
+
+        r = Bounds(self, st).term(p)
+        if r is None or r[0] is None or r[1] is None:
+            raise AnalysisError("E5.subscript", "cannot bound the index int(%r)" % (p,), node, module)
+        lo, hi = r
+        if lo < 0:
+            raise AnalysisError("E5.subscript", "index int(...) may be negative (bounds %s..%s)" % (lo, hi), node, module)
+        n = len(items)
+        top = int(hi)  # int() truncates; p >= 0 so this is floor
+        if top >= n:
+            self.hazard(
+                st, "IndexError", node, module, T.mk_cmp(">=", p, P.const(n)),
+                "index int(x) reaches %d (x is bounded by [%s, %s]) but the sequence has %d entries" % (top, float(lo), float(hi), n),
+            )
+            top = n - 1
+        out = items[top]
+        for k in range(top - 1, int(lo) - 1, -1):
+            out = self.mk_ite(st, T.mk_cmp("<", p, P.const(k + 1)), items[k], out)
+        return out
+
     def subscript(self, st, base, idx, node, module):
         if isinstance(idx, App) and idx.op == "ite" and not isinstance(base, (TupleVal,)):
             return self._lookup_ite(st, idx, lambda k: self.subscript(st, base, k, node, module))
+        ip = self._int_of(idx)
+        if ip is not None:
+            seq = None
+            if isinstance(base, Ref) and st.heap[base.id].kind == "list" and all(isinstance(g, Const) and truth_const(g.v) for g, _ in st.heap[base.id].items):
+                seq = [v for _, v in st.heap[base.id].items]
+            elif isinstance(base, TupleVal):
+                seq = list(base.items)
+            elif isinstance(base, Const) and isinstance(base.v, (list, tuple)):
+                seq = [wrap_const(e) for e in base.v]
+            if seq:
+                return self.index_by_int(st, seq, ip, node, module)
         if isinstance(base, Ref):
             o = st.heap[base.id]
             if o.kind == "map":
@@ -417,6 +466,18 @@ class ExprMixin(object):
             return self._lookup_ite(st, idx, lambda k: self.map_get(st, o, k, node, module, strict, default))
         if isinstance(idx, Const):
             k = idx.v
+            if strict and o.default_factory is not None:
+                # defaultdict.__missing__: a subscript of an absent key *stores* the default
+                present, value = o.entries.get(k, (FALSE, None))
+                d = self.decide(st, present)
+                if d is True:
+                    return self.simp(st, value)
+                dv = self.call(st, o.default_factory, [], {}, node, module)
+                mid = [i for i, ob in st.heap.items() if ob is o]
+                self.event("map_mutation", node, module, st, what="defaultdict insert of %r" % (k,), map=mid[0] if mid else None, cond=mk_not(present))
+                nv = dv if d is False else self.mk_ite(st, present, value, dv)
+                o.set(k, TRUE, nv)
+                return self.simp(st, nv)
             if k not in o.entries:
                 if strict:
                     self.hazard(st, "KeyError", node, module, TRUE, "key %r never stored" % (k,))
@@ -605,6 +666,36 @@ class ExprMixin(object):
             pb = self.to_poly(st, b, node, module)
             return T.mk_cmp(sym, pa, pb)
         if sym in ("==", "!="):
+            def seq_items(x):
+                if isinstance(x, Ref) and st.heap[x.id].kind == "list":
+                    return list(st.heap[x.id].items)
+                if isinstance(x, TupleVal):
+                    return [(TRUE, e) for e in x.items]
+                if isinstance(x, Const) and isinstance(x.v, (list, tuple)):
+                    return [(TRUE, wrap_const(e)) for e in x.v]
+                return None
+
+            sa_, sb_ = seq_items(a), seq_items(b)
+            if sa_ is not None and sb_ is not None:
+                fixed = all(isinstance(g, Const) and truth_const(g.v) for g, _ in sa_ + sb_)
+                if fixed:
+                    if len(sa_) != len(sb_):
+                        return Const(sym != "==")
+                    cs = [self.compare_sym(st, "==", x, y, node, module, False) for (_, x), (_, y) in zip(sa_, sb_)]
+                    r = mk_and(cs)
+                    return r if sym == "==" else mk_not(r)
+                deps = set()
+                for g, x in sa_ + sb_:
+                    deps |= deps_of(g) | (deps_of(x) if isinstance(x, Term) else set())
+                r = Opaque("seq-eq", deps)
+                return r if sym == "==" else mk_not(r)
+            if (sa_ is not None or sb_ is not None) and isinstance(a if sa_ is None else b, Opaque):
+                o_ = a if sa_ is None else b
+                deps = set(o_.deps)
+                for g, x in (sa_ if sa_ is not None else sb_):
+                    deps |= deps_of(g) | (deps_of(x) if isinstance(x, Term) else set())
+                r = Opaque("seq-eq", deps)
+                return r if sym == "==" else mk_not(r)
             if isinstance(a, Term) and isinstance(b, Term):
                 if a == b:
                     return Const(sym == "==")
@@ -728,6 +819,30 @@ class ExprMixin(object):
                 return self.alloc(st, ListObj(oa.items + ob.items))
         if isinstance(op, ast.Add) and isinstance(a, TupleVal) and isinstance(b, TupleVal):
             return TupleVal(a.items + b.items)
+        if isinstance(op, (ast.Add, ast.Mult)):
+            # list + list / list * n on literal or heap lists
+            def as_items(x):
+                if isinstance(x, Ref) and st.heap[x.id].kind == "list":
+                    return list(st.heap[x.id].items)
+                if isinstance(x, Const) and isinstance(x.v, (list, tuple)):
+                    return [(TRUE, wrap_const(e)) for e in x.v]
+                if isinstance(x, TupleVal):
+                    return [(TRUE, e) for e in x.items]
+                return None
+
+            ia, ib = as_items(a), as_items(b)
+            if isinstance(op, ast.Add) and ia is not None and ib is not None:
+                lo = ListObj(ia + ib)
+                for x in (a, b):
+                    if isinstance(x, Ref):
+                        for fl in ("from_map", "hash_ordered", "input_ordered"):
+                            if getattr(st.heap[x.id], fl, None):
+                                setattr(lo, fl, getattr(st.heap[x.id], fl))
+                return self.alloc(st, lo)
+            if isinstance(op, ast.Mult):
+                for items, n in ((ia, b), (ib, a)):
+                    if items is not None and isinstance(n, Const) and isinstance(n.v, int) and not isinstance(n.v, bool):
+                        return self.alloc(st, ListObj(items * max(n.v, 0)))
         # discrete int arithmetic (digits, indexes)
         if const_int_like(a) and const_int_like(b) and fo.can_fold([a, b]):
             f = {
